@@ -1059,9 +1059,12 @@ func run(in, casesOut, implOut string, isolate bool) {
 	implAbs, _ := filepath.Abs(implOut)
 	inAbs, _ := filepath.Abs(in)
 	old, _ := os.Getwd()
+	// whatever the library puts into "the temp directory" lands on another file system than the session files
+	foreign, restoreTmp := vc.ForeignTmp(scratch)
 	cleanup := func() {
 		os.Chdir(old)
 		os.RemoveAll(scratch)
+		restoreTmp()
 	}
 	if err := os.Chdir(scratch); err != nil {
 		cleanup()
@@ -1127,6 +1130,7 @@ func run(in, casesOut, implOut string, isolate bool) {
 		fmt.Printf("hyp\t%s\t%d\n", k, rn.hyp[k])
 	}
 	fmt.Printf("ran\t%d\n", n)
+	fmt.Printf("tmpdir-on-another-file-system\t%s\n", b2s(foreign != ""))
 }
 
 func main() {
